@@ -24,7 +24,9 @@ fn main() {
     }
     // A panic inside code under test is data, not a harness failure: the places that call into
     // grmtools use catch_unwind; silence the default hook's backtrace noise.
-    std::panic::set_hook(Box::new(|_| {}));
+    if std::env::var("VH_DEBUG").is_err() {
+        std::panic::set_hook(Box::new(|_| {}));
+    }
     let rc = match args[1].as_str() {
         "lr" => lr::main(&args[2..]),
         "lr-child" => lr::child_main(),
